@@ -4,6 +4,7 @@ import (
 	"fmt"
 	"go/token"
 	"go/types"
+	"strconv"
 	"strings"
 
 	"fsverif/eng"
@@ -24,6 +25,94 @@ func runC18(c *Ctx) {
 	// computed from the merged list (shared with C10)
 	r10_10(c, "R18.5")
 	r18_6(c, "R18.6")
+	wildcardChars(c, "R18.7", "fsutil.containsWildcards")
+}
+
+// R18.7 / R15.6: what counts as a wildcard.
+//
+// A request (or copy source) is expanded only if containsWildcards says so;
+// a name with a metacharacter it does not know is looked up literally and not
+// found. The function compares each character with '*', '?' and '[' - all
+// three - and skips the character after a backslash.
+func wildcardChars(c *Ctx, rule, fnName string) {
+	c.R.Rule(rule, fnName+" compares the characters of its argument with '*', '?' and '[' (all three), and an escaping backslash skips the next character")
+	fn := c.Fn(rule, fnName)
+	if fn == nil {
+		return
+	}
+	seen := map[int64]bool{}
+	eng.InstrsShallow(fn, func(in ssa.Instruction) {
+		bo, ok := in.(*ssa.BinOp)
+		if !ok || (bo.Op != token.EQL && bo.Op != token.NEQ) {
+			return
+		}
+		for _, y := range []ssa.Value{bo.X, bo.Y} {
+			if k, isK := eng.ConstInt(y); isK {
+				seen[k] = true
+			}
+		}
+	})
+	missing := ""
+	for _, ch := range "*?[" {
+		if !seen[int64(ch)] {
+			missing += string(ch)
+		}
+	}
+	// (strings.ContainsAny with a constant set is the other spelling)
+	if missing != "" {
+		for _, call := range c.P.CallsTo(fn, "strings.ContainsAny", "strings.IndexAny", "strings.ContainsRune", "strings.IndexByte") {
+			c.DerivesFrom(call.Common().Args[1], func(v ssa.Value) bool {
+				if s, ok := eng.ConstString(v); ok {
+					for _, ch := range s {
+						seen[int64(ch)] = true
+					}
+				}
+				if k, ok := eng.ConstInt(v); ok {
+					seen[k] = true
+				}
+				return false
+			}, 3)
+		}
+		missing = ""
+		for _, ch := range "*?[" {
+			if !seen[int64(ch)] {
+				missing += string(ch)
+			}
+		}
+	}
+	c.R.Check(missing == "", rule, c.name(fn)+"/metacharacters", c.P.Pos(fn.Pos()), "recognises * ? [", c.name(fn)+" does not recognise "+strconv.Quote(missing)+" as a wildcard: such a name is looked up literally and silently not found")
+	if c.P.GOOS != "windows" {
+		// ... by an extra step of the index that is taken only for a backslash
+		x := c.explorer(fn)
+		var esc []string
+		eng.InstrsShallow(fn, func(in ssa.Instruction) {
+			if bo, ok := in.(*ssa.BinOp); ok && bo.Op == token.EQL {
+				if k, isK := eng.ConstInt(bo.Y); isK && k == '\\' {
+					esc = append(esc, x.KeyAtEntry(bo))
+				}
+			}
+		})
+		skips := false
+		eng.InstrsShallow(fn, func(in ssa.Instruction) {
+			bo, ok := in.(*ssa.BinOp)
+			if !ok || bo.Op != token.ADD || len(esc) == 0 {
+				return
+			}
+			if k, isK := eng.ConstInt(bo.Y); !isK || k < 1 {
+				return
+			}
+			no := map[string]bool{}
+			for _, k := range esc {
+				no[k] = false
+			}
+			isIt := func(i2 ssa.Instruction) bool { return i2 == ssa.Instruction(bo) }
+			if hit, und := c.ReachableUnder(fn, no, nil, isIt); hit == nil && !und {
+				skips = true
+			}
+		})
+		c.R.Check(skips, rule, c.name(fn)+"/escape-skips", c.P.Pos(fn.Pos()), "the character after a backslash is skipped", c.name(fn)+" does not step over the character that follows a backslash: an escaped metacharacter is taken for a wildcard")
+		c.R.Check(seen['\\'], rule, c.name(fn)+"/escape", c.P.Pos(fn.Pos()), "a backslash escapes", c.name(fn)+" no longer treats a backslash as an escape: an escaped metacharacter is taken for a wildcard")
+	}
 }
 
 // R18.6: a component is expanded as a wildcard at most once.
